@@ -238,6 +238,55 @@ def r153(ctx):
         ctx.bad(rid, ep[0] if ep else f, "the pasted path is not created with the requested length limit", construct="empty_path without maxlen=maxlen")
 
 
+def r154(ctx):
+    """Classification agrees with the extreme values on equality: check_interfaces reports an
+    interface as crossed with `ordermin < l <= ordermax` exactly when the end-point classifier
+    counts a frame *on* the interface as having reached it (`order >= right` -> 'R',
+    `order <= left` -> 'L'). The two conventions are siblings: inclusive end point <=> inclusive
+    upper bound of the crossing test; a start point on the left interface is 'L' and has not
+    crossed it (strict lower bound)."""
+    rid = "R-15.4"
+    tree = ctx.tree
+    ci = tree.func(PATH, "Path.check_interfaces")
+    chains = [c for c in ast.walk(ci) if isinstance(c, ast.Compare) and len(c.ops) == 2]
+    if len(chains) != 1:
+        raise AnalysisError(f"R-15.4: expected one chained comparison `min < l <= max` in check_interfaces, found {len(chains)}")
+    ch = chains[0]
+    lo_txt, hi_txt = ast.unparse(ch.left), ast.unparse(ch.comparators[1])
+    if not ("min" in lo_txt and "max" in hi_txt):
+        raise AnalysisError("R-15.4: the chained comparison of check_interfaces is not <minimum> . interface . <maximum>")
+
+    def incl(fname, side):
+        f = tree.func(PATH, "Path." + fname)
+        params = [a.arg for a in f.args.args]
+        left, right = params[1], params[2]
+        want = left if side == "left" else right
+        for c in [c for c in walk_local(f) if isinstance(c, ast.Compare) and len(c.ops) == 1]:
+            l, r = ast.unparse(c.left), ast.unparse(c.comparators[0])
+            if r == want and ".order[0]" in l:
+                return c, isinstance(c.ops[0], (ast.LtE, ast.GtE))
+            if l == want and ".order[0]" in r:
+                return c, isinstance(c.ops[0], (ast.LtE, ast.GtE))
+        raise AnalysisError(f"R-15.4: comparison with `{want}` not found in {fname}")
+
+    ec, end_incl = incl("get_end_point", "right")
+    sc, start_incl = incl("get_start_point", "left")
+    up_incl = isinstance(ch.ops[1], ast.LtE)
+    lo_strict = isinstance(ch.ops[0], ast.Lt)
+    if not isinstance(ch.ops[1], (ast.Lt, ast.LtE)) or not isinstance(ch.ops[0], (ast.Lt, ast.LtE)):
+        ctx.bad(rid, ch, "the crossing test of check_interfaces is not of the form minimum < interface <= maximum", construct="crossing test " + short(ch, 60))
+        return
+    if up_incl == end_incl:
+        ctx.ok(rid, ch, f"crossing test upper bound `{type(ch.ops[1]).__name__}` agrees with the end-point rule `{short(ec, 40)}`: a path that ends on an interface ('R') has crossed it")
+    else:
+        ctx.bad(rid, ch, f"check_interfaces counts an interface as crossed with `{short(ch, 50)}` while get_end_point classifies a frame on the interface with `{short(ec, 40)}`: a path whose maximum lies exactly on an interface ends 'R' there but is reported as not crossing it (cross and 'M' disagree with the extreme values)",
+                construct="crossing upper bound vs end-point rule")
+    if lo_strict == start_incl:
+        ctx.ok(rid, ch, f"crossing test lower bound `{type(ch.ops[0]).__name__}` agrees with the start-point rule `{short(sc, 40)}`")
+    else:
+        ctx.bad(rid, ch, f"check_interfaces' lower bound `{short(ch, 50)}` disagrees with get_start_point's `{short(sc, 40)}` on a frame exactly on the interface", construct="crossing lower bound vs start-point rule")
+
+
 def r152(ctx):
     from .shared import numeric_option_truthiness
     numeric_option_truthiness(ctx, "R-15.2", [PATH], "start/end classification would use the wrong interface when an interface is exactly 0.0")
@@ -245,14 +294,19 @@ def r152(ctx):
 
 def run(ctx):
     ctx.rule("R-15.2", "optional interface parameters of the classification functions are tested with `is None`, never by truthiness (an interface at 0.0 is a legal value)", floor=2)
+    ctx.rule("R-15.4", "crossing test and start/end classifiers agree on a frame exactly on an interface (inclusive end point <=> inclusive upper bound of `min < l <= max`)", floor=2)
     ctx.rule("R-15.3", "paste_paths: reversed backward segment, then the forward segment minus exactly its first frame iff overlap; every visited frame appended; Path.append refuses at the limit (length = len(back) + len(forward) - shared, truncated at maxlen)", floor=6)
     ctx.rule("R-15.1", "copy / reverse / += add fresh frame copies; reverse mutates only the new path; System.copy returns a new object; flag toggle is an involution", floor=10)
     ctx.attempt(r151, ctx)
     ctx.attempt(r152, ctx)
     ctx.attempt(r153, ctx)
+    ctx.attempt(r154, ctx)
 
 
 VARIANTS = [
+    B("c15-cross-strict-upper", PATH, "        cross = [ordermin < interpos <= ordermax for interpos in interfaces]", "        cross = [ordermin < interpos < ordermax for interpos in interfaces]", "R-15.4", control=True, why="seeded C15_c"),
+    B("c15-cross-inclusive-lower", PATH, "        cross = [ordermin < interpos <= ordermax for interpos in interfaces]", "        cross = [ordermin <= interpos <= ordermax for interpos in interfaces]", "R-15.4"),
+    K("c15-keep-cross-renamed", PATH, "        cross = [ordermin < interpos <= ordermax for interpos in interfaces]", "        cross = [ordermin < lam <= ordermax for lam in interfaces]"),
     B("c15-paste-backward-not-reversed", PATH, "    for phasepoint in reversed(path_back.phasepoints):\n        app = new_path.append(phasepoint)", "    for phasepoint in path_back.phasepoints:\n        app = new_path.append(phasepoint)", "R-15.3", control=True),
     B("c15-paste-skip-without-overlap", PATH, "        if first and overlap:\n            first = False\n            continue", "        if first:\n            first = False\n            continue", "R-15.3"),
     B("c15-paste-skip-every-frame", PATH, "        if first and overlap:\n            first = False\n            continue", "        if first and overlap:\n            continue", "R-15.3"),
